@@ -179,7 +179,8 @@ fn check(rt: &tokio::runtime::Runtime, c: &Case, overlap_seen: &AtomicUsize) -> 
     let mut baselines = vec![];
     for k in 0..c.n {
         base.log.lock().unwrap().clear();
-        let out = detach(block_on(base.ruleset.evaluate_value(&facts_for(c, k))).expect("evaluate_value"));
+        let out = catch(|| detach(block_on(base.ruleset.evaluate_value(&facts_for(c, k))).expect("evaluate_value")))
+            .map_err(|p| Issue::new("threads:panic", format!("sequential baseline evaluation panicked: {p}; {}", case_json(c))))?;
         let log = attributed(&base.log.lock().unwrap(), k);
         baselines.push((out, log));
     }
